@@ -18,11 +18,13 @@ import (
 	"fmt"
 	"io"
 	"math/rand"
+	"net"
 	"os"
 	"path/filepath"
 	"reflect"
 	"sort"
 	"strings"
+	"syscall"
 	"time"
 
 	kmip "github.com/smira/go-kmip"
@@ -213,6 +215,19 @@ func (c *chunkReader) Read(b []byte) (int, error) {
 }
 
 var errInjected = fmt.Errorf("injected I/O error")
+
+// the kinds of persistent I/O error a source may fail with: plain, "temporary" net.Errors (with and without Timeout, bare,
+// wrapped in *net.OpError, a syscall.Errno), an expired deadline.  Decode returns for each of them.
+var injectedErrors = []error{errInjected, tempError{timeout: false}, tempError{timeout: true}, &net.OpError{Op: "read", Net: "mem", Err: tempError{timeout: false}},
+	syscall.EINTR, syscall.EAGAIN, os.ErrDeadlineExceeded, io.ErrUnexpectedEOF, io.ErrNoProgress}
+var injectedHangs int
+
+func injectedError(i int) error {
+	if injectedHangs >= 3 {
+		return errInjected
+	}
+	return injectedErrors[i%len(injectedErrors)]
+}
 
 // ---------- independent TTLV walker (no schema): offsets of item headers ----------
 
@@ -646,6 +661,38 @@ func suiteCodec(args []string) {
 			}
 		}
 	}
+	// group 1b: long messages made of many short items (a Locate reply with hundreds of identifiers, a long batch): every
+	// nested structure is longer than any internal buffer, so values straddle whatever refill boundaries there are
+	nMany := 2 + *n/100
+	for k := 0; k < nMany; k++ {
+		ids := make([]string, 90+r.Intn(400)+(k%3)*300)
+		for i := range ids {
+			id := strings.Repeat(fmt.Sprintf("%016x", r.Int63()), 3)
+			ids[i] = id[:1+r.Intn(40)]
+		}
+		var v interface{}
+		tn := "Response"
+		if k%2 == 0 {
+			v = &kmip.Response{Header: kmip.ResponseHeader{Version: kmip.ProtocolVersion{Major: 1, Minor: 4}, TimeStamp: time.Unix(1500000000, 0), BatchCount: 1},
+				BatchItems: []kmip.ResponseBatchItem{{Operation: kmip.OPERATION_LOCATE, ResultStatus: kmip.RESULT_STATUS_SUCCESS,
+					ResponsePayload: kmip.LocateResponse{LocatedItems: int32(len(ids)), UniqueIdentifiers: ids}}}}
+		} else {
+			tn = "Request"
+			req := &kmip.Request{Header: kmip.RequestHeader{Version: kmip.ProtocolVersion{Major: 1, Minor: 4}, BatchCount: int32(len(ids) / 4)}}
+			for i := 0; i < len(ids)/4; i++ {
+				req.BatchItems = append(req.BatchItems, kmip.RequestBatchItem{Operation: kmip.OPERATION_GET, UniqueID: []byte(ids[i]), RequestPayload: kmip.GetRequest{UniqueIdentifier: ids[i]}})
+			}
+			v = req
+		}
+		txt := showVal(reflect.ValueOf(v))
+		obs, out := implEncode(v)
+		cw.add("enc-wf", "enc "+txt, obs)
+		rep.Distribution["enc-many:"+strings.SplitN(obs, " ", 2)[0]]++
+		if out != nil {
+			runRoundTrip(cw, rep, tn, v, txt, out, viol)
+			rep.Distribution[fmt.Sprintf("rt-many:%dKiB", len(out)/1024)]++
+		}
+	}
 	// group 2: top-level shapes that are not messages (C13)
 	for _, txt := range []string{"N", "(i 5)", "(s 6162)", "(X typednil)", "(X int)", "(X map)", "(X slice)", "(X func)", "(X chan)", "(X float64)",
 		"(P (P (S GetRequest (s _) (e 0) (e 0) (e 0) (S KeyWrappingSpecification (e 0) (S EncryptionKeyInformation (s _) (S CryptoParams (e 0) (e 0) (e 0) (e 0) (e 0) (e 0) (b 0) (i 0) (i 0) (i 0) (i 0) (i 0) (i 0) (i 0) (e 0) (e 0) (y _) (i 0))) (S MACSignatureKeyInformation (s _) (S CryptoParams (e 0) (e 0) (e 0) (e 0) (e 0) (e 0) (b 0) (i 0) (i 0) (i 0) (i 0) (i 0) (i 0) (i 0) (e 0) (e 0) (y _) (i 0))) (L) (e 0)))))",
@@ -810,8 +857,11 @@ func checkDelivery(r *rand.Rand, rep *Report, tn string, b []byte, ref decodeRes
 	if len(b) > 0 {
 		cut = r.Intn(len(b))
 	}
-	res := implDecodeFrom(tn, &chunkReader{data: append([]byte(nil), b[:cut]...), sizes: []int{cut}, termErr: errInjected}, func() int { return 0 })
+	res := implDecodeFrom(tn, &chunkReader{data: append([]byte(nil), b[:cut]...), sizes: []int{cut}, termErr: injectedError(cut + len(b))}, func() int { return 0 })
 	rep.Distribution["delivery:ioerr"]++
+	if res.obs == "hang" {
+		injectedHangs++
+	}
 	if strings.HasPrefix(res.obs, "panic") || res.obs == "hang" {
 		viol("decode-ioerr-"+strings.SplitN(res.obs, " ", 2)[0], map[string]interface{}{"type": tn, "bytes": hexBytes(b[:cut]), "observed": res.obs})
 	}
@@ -1050,7 +1100,7 @@ func runScripted(cw *caseWriter, rep *Report, r *rand.Rand, validMsgs, wfMsgs []
 		mode := []int{0, 1, 1, 16, 16, 37, 4096}[r.Intn(7)]
 		term, termName := io.EOF, "eof"
 		if i%5 == 3 {
-			term, termName = errInjected, "ioe"
+			term, termName = injectedError(i/5), "ioe"
 		}
 		var sizes []int
 		weof := false
@@ -1063,6 +1113,9 @@ func runScripted(cw *caseWriter, rep *Report, r *rand.Rand, validMsgs, wfMsgs []
 		src, left := scriptedSource(mode, b, sizes, weof, term)
 		res := implDecodeFrom(tn, src, func() int { return 0 })
 		obs := res.obs
+		if obs == "hang" {
+			injectedHangs++
+		}
 		if mode == 0 {
 			obs += fmt.Sprintf(" | left=%d", left())
 		}
